@@ -1,20 +1,31 @@
 ---------------------------- MODULE GVDegeneracy ----------------------------
-(* C12: bookkeeping of degenerate sets and the frequency cutoff in           *)
+(* C12: bookkeeping of degenerate sets and of the frequency cutoff in        *)
 (* GroupVelocity._calculate_group_velocity_at_q and rotate_eigenvectors      *)
 (* (phonopy/phonon/degeneracy.py: degenerate_sets), as a step machine, and   *)
 (* what the property needs from it.                                          *)
 (*                                                                           *)
-(* Frequencies are integers (units in which the tolerance is Tol); the       *)
-(* callers pass eigenvalues/frequencies in ascending order (numpy.linalg.    *)
-(* eigh), which is the precondition stated here.                             *)
+(* Two DIFFERENT numbers are involved:                                       *)
+(*   tol    - the degeneracy tolerance: modes are in one class iff they are  *)
+(*            linked by steps smaller than tol.  Fixed (degenerate_sets'     *)
+(*            default, 1e-4), never taken from the caller's cutoff;          *)
+(*   cutoff - GroupVelocity(cutoff_frequency=...): the velocity of a mode    *)
+(*            is set to zero iff its frequency is <= cutoff.                 *)
+(* The property: whatever the cutoff, the classes are those of tol, so a     *)
+(* non-degenerate mode above the cutoff keeps its own eigenvector and its    *)
+(* velocity is the gradient of its frequency.                                *)
+(*                                                                           *)
+(* Frequencies are integers (units in which tol is given); the callers pass  *)
+(* eigenvalues/frequencies in ascending order (numpy.linalg.eigh), which is  *)
+(* the precondition stated here.                                             *)
 EXTENDS Integers, Sequences, FiniteSets, TLC
 
 CONSTANTS MaxLen, MaxF, Tols, Cutoffs,
-          Observed   \* set of pairs << <<freqs, tol>>, sets >> recorded from the implementation ({} in model runs)
+          Observed   \* set of pairs << <<freqs, tol, cutoff>>, [sets, tolPassed, gv, zeroed] >> recorded from the
+                     \* implementation ({} in model runs); gv = TRUE for events of a GroupVelocity object
 
-VARIABLES pc, freqs, tol, i, j, fset, done, indices,
-          obsv     \* the implementation's recorded result for this input (<<>> if none)
-vars == <<pc, freqs, tol, i, j, fset, done, indices, obsv>>
+VARIABLES pc, freqs, tol, cutoff, tolUsed, i, j, fset, done, indices, zeroed,
+          obsv     \* the implementation's record for this input (<<>> if none)
+vars == <<pc, freqs, tol, cutoff, tolUsed, i, j, fset, done, indices, zeroed, obsv>>
 
 Sorted(f) == \A a, b \in 1..Len(f) : a < b => f[a] <= f[b]
 SeqsUpTo(n) == UNION {[1..k -> 0..MaxF] : k \in 1..n}
@@ -24,10 +35,17 @@ AbsI(v) == IF v < 0 THEN -v ELSE v
 InSeq(s, v) == \E k \in 1..Len(s) : s[k] = v
 
 Init ==
-  /\ pc = "outer"
-  /\ IF Observed = {} THEN freqs \in Inputs /\ tol \in Tols /\ obsv = <<>>
-                       ELSE \E p \in Observed : freqs = p[1][1] /\ tol = p[1][2] /\ obsv = p[2]
-  /\ i = 1 /\ j = 0 /\ fset = <<>> /\ done = <<>> /\ indices = <<>>
+  /\ pc = "call"
+  /\ IF Observed = {} THEN freqs \in Inputs /\ tol \in Tols /\ cutoff \in Cutoffs /\ obsv = <<>>
+                       ELSE \E p \in Observed : freqs = p[1][1] /\ tol = p[1][2] /\ cutoff = p[1][3] /\ obsv = p[2]
+  /\ tolUsed = 0 /\ i = 1 /\ j = 0 /\ fset = <<>> /\ done = <<>> /\ indices = <<>> /\ zeroed = {}
+
+(* deg_sets = degenerate_sets(freqs): the tolerance handed down is the fixed one, not the cutoff *)
+Call ==
+  /\ pc = "call"
+  /\ tolUsed' = tol
+  /\ pc' = "outer"
+  /\ UNCHANGED <<freqs, tol, cutoff, i, j, fset, done, indices, zeroed, obsv>>
 
 (* for i in range(len(freqs)): if i in done: continue; else f_set=[i]; done.append(i) *)
 Outer ==
@@ -35,25 +53,33 @@ Outer ==
   /\ IF i > Len(freqs) THEN /\ pc' = "end" /\ UNCHANGED <<i, j, fset, done, indices>>
      ELSE IF InSeq(done, i) THEN /\ i' = i + 1 /\ UNCHANGED <<pc, j, fset, done, indices>>
      ELSE /\ fset' = <<i>> /\ done' = Append(done, i) /\ j' = i + 1 /\ pc' = "inner" /\ UNCHANGED <<i, indices>>
-  /\ UNCHANGED <<freqs, tol, obsv>>
+  /\ UNCHANGED <<freqs, tol, cutoff, tolUsed, zeroed, obsv>>
 
 (* for j in range(i+1, len): if (abs(freqs[f_set] - freqs[j]) < cutoff).any(): f_set.append(j); done.append(j) *)
 Inner ==
   /\ pc = "inner"
   /\ IF j > Len(freqs)
        THEN /\ indices' = Append(indices, fset) /\ i' = i + 1 /\ pc' = "outer" /\ UNCHANGED <<j, fset, done>>
-       ELSE /\ IF \E k \in 1..Len(fset) : AbsI(freqs[fset[k]] - freqs[j]) < tol
+       ELSE /\ IF \E k \in 1..Len(fset) : AbsI(freqs[fset[k]] - freqs[j]) < tolUsed
                  THEN /\ fset' = Append(fset, j) /\ done' = Append(done, j)
                  ELSE UNCHANGED <<fset, done>>
             /\ j' = j + 1 /\ UNCHANGED <<pc, i, indices>>
-  /\ UNCHANGED <<freqs, tol, obsv>>
+  /\ UNCHANGED <<freqs, tol, cutoff, tolUsed, zeroed, obsv>>
 
-Next == Outer \/ Inner
+(* for i, f in enumerate(freqs): if f > cutoff: scale else: gv[i] = 0 *)
+ZeroBelowCutoff ==
+  /\ pc = "end"
+  /\ zeroed' = {k \in 1..Len(freqs) : ~(freqs[k] > cutoff)}
+  /\ pc' = "done"
+  /\ UNCHANGED <<freqs, tol, cutoff, tolUsed, i, j, fset, done, indices, obsv>>
+
+Next == Call \/ Outer \/ Inner \/ ZeroBelowCutoff
 Spec == Init /\ [][Next]_vars
 
 -----------------------------------------------------------------------------
 (* requirement: the sets are the classes of "linked by steps smaller than    *)
-(* tol"; for ascending input these are maximal runs of consecutive indices   *)
+(* tol" (the FIXED tolerance, independent of the cutoff); for ascending      *)
+(* input these are maximal runs of consecutive indices                       *)
 Linked(f, t, a, b) == \A k \in a..(b - 1) : f[k + 1] - f[k] < t           \* a <= b
 SameClass(f, t, a, b) == IF a <= b THEN Linked(f, t, a, b) ELSE Linked(f, t, b, a)
 
@@ -68,24 +94,28 @@ ReqClasses(f, t, sets) ==
 (* the group-velocity code writes results back with a running position: sets *)
 (* must come in ascending order of consecutive indices                       *)
 ReqConsecutive(sets) ==
-  LET flat == [k \in 1..Len(sets) |-> sets[k]] IN
   \A k \in 1..Len(sets) : \A m \in 1..Len(sets[k]) :
      sets[k][m] = m + Cardinality(UNION {ToSet(sets[kk]) : kk \in 1..(k - 1)})
+(* the velocity is zeroed exactly for the modes at or below the cutoff *)
+ReqZeroed(f, c, z) == z = {k \in 1..Len(f) : f[k] <= c}
+(* two modes further apart than tol are never in one set, however large the cutoff *)
+ReqCutoffDoesNotMerge(f, t, sets) ==
+  \A k \in 1..Len(sets) : \A a, b \in ToSet(sets[k]) : SameClass(f, t, a, b)
 
-InvPartition == pc = "end" => ReqPartition(freqs, indices)
-InvClasses == pc = "end" => ReqClasses(freqs, tol, indices)
-InvConsecutive == pc = "end" => ReqConsecutive(indices)
-
-(* cutoff rule: velocity is zeroed exactly for f <= cutoff; such modes are   *)
-(* never above the cutoff (decision table, trivial but stated)               *)
-Zeroed(f, c) == ~(f > c)
-InvCutoff == \A c \in Cutoffs : \A f \in 0..MaxF : Zeroed(f, c) <=> f <= c
+AtEnd == pc = "done"
+InvPartition == AtEnd => ReqPartition(freqs, indices)
+InvClasses == AtEnd => ReqClasses(freqs, tol, indices)
+InvConsecutive == AtEnd => ReqConsecutive(indices)
+InvZeroed == AtEnd => ReqZeroed(freqs, cutoff, zeroed)
+InvCutoffDoesNotMerge == AtEnd => ReqCutoffDoesNotMerge(freqs, tol, indices)
 
 (* implementation: recorded outputs (0-based in the code, 1-based here)       *)
-Seen == pc = "end" /\ obsv # <<>>
-Obs == obsv
-ImplPartition == Seen => ReqPartition(freqs, Obs)
-ImplClasses == Seen => ReqClasses(freqs, tol, Obs)
-ImplConsecutive == Seen => ReqConsecutive(Obs)
-ConformsSets == Seen => Obs = indices
+Seen == AtEnd /\ obsv # <<>>
+ImplPartition == Seen => ReqPartition(freqs, obsv.sets)
+ImplClasses == Seen => ReqClasses(freqs, tol, obsv.sets)
+ImplConsecutive == Seen => ReqConsecutive(obsv.sets)
+ImplCutoffDoesNotMerge == Seen => ReqCutoffDoesNotMerge(freqs, tol, obsv.sets)
+ImplZeroed == (Seen /\ obsv.gv) => ReqZeroed(freqs, cutoff, obsv.zeroed)
+ConformsSets == Seen => obsv.sets = indices
+ConformsTolerancePassed == Seen => obsv.tolPassed = tolUsed
 =============================================================================
